@@ -78,6 +78,9 @@ class FakeHost:
                     except Exception:
                         pass
             self.log.append(f'answered {counter}')
+            if self.ctrl_mode == 'silent':
+                self.keep.append(ctrl)
+                return
             if self.ctrl_mode == 'rst':
                 ctrl.setsockopt(socket.SOL_SOCKET, socket.SO_LINGER, struct.pack('ii', 1, 0))
             ctrl.close()
